@@ -50,6 +50,10 @@ def gen_case(seed, tier, index=0):
     # (an in-memory edit of the replicated description is not stored by any public call, so the only stored
     # mutations of a package without loops are its creation options: platform, user variable files)
     ops.append({'op': 'reload', 'cycles': rr.choice([1, 1, 2, 4])})
+    if pkg.get('platform') and rr.random() < 0.5:
+        # the instance is opened again without naming the platform (as the inspection tools do): the stored description
+        # is flattened for the platform it was created with, so everything but the platform's *name* must be the same
+        ops[-1]['reload_platform'] = 'unnamed'
     return {'kind': 'plain', 'pkg': pkg, 'ops': ops}
 
 
@@ -139,9 +143,16 @@ def run_plain(case, root, viol, cnt):
                 before = e2.snapshot_experiment(exp)
                 bb = e2.conf_bytes(exp)
                 del exp
-                exp = e2.reload_instance(inst, platform=pkg.get('platform'))
+                unnamed = op.get('reload_platform') == 'unnamed'
+                exp = e2.reload_instance(inst, platform=None if unnamed else pkg.get('platform'))
                 cnt['fault.crash_and_reload'] = cnt.get('fault.crash_and_reload', 0) + 1
-                e2.judge_reload(before, bb, exp, viol, 'op %d cycle %d' % (oi, c + 1), cnt)
+                if unnamed:
+                    # platform-scoped variable tables are relative to the platform's name; their effect is in the
+                    # resolved configuration of every node, which is compared
+                    cnt['probe.reloaded_without_naming_the_platform'] = cnt.get('probe.reloaded_without_naming_the_platform', 0) + 1
+                e2.judge_reload(before, bb, exp, viol, 'op %d cycle %d%s' % (oi, c + 1, ' (platform not named)' if unnamed else ''),
+                                cnt, ignore=('platform', 'global_vars', 'vars') if unnamed else (),
+                                tag='[platform-not-named]' if unnamed else '')
                 if viol:
                     return
 
